@@ -11,6 +11,7 @@ import (
 	"encoding/json"
 	"fmt"
 	"io"
+	"net/http"
 	"os"
 	"path/filepath"
 	"runtime/debug"
@@ -33,6 +34,7 @@ type vcase struct {
 	Hist   []op   `json:"history"`
 	HistS  string `json:"history_text"`
 	Check  check  `json:"check"`
+	Bulk   *bulk  `json:"bulk,omitempty"`
 }
 
 func histString(h []op) string {
@@ -722,10 +724,193 @@ func runAll(c *lib.Ctx) {
 	if only != "A" {
 		phaseB(c, &unit)
 	}
+	if only == "" || only == "C" {
+		phaseLong(c)
+	}
 	tb := time.Since(start) - ta
 	if os.Getenv("C07_TIMING") != "" {
 		c.Note(fmt.Sprintf("timing_shard%02d", c.ShardI), fmt.Sprintf("A %.1fs B %.1fs", ta.Seconds(), tb.Seconds()))
 	}
+}
+
+// ---- phase C: a log longer than one scan window --------------------------------
+
+// bulk describes a long log compactly: NOld records of kind Old, then NBulk
+// records of kind Bulk, flushed to the current file, then NNew of kind Old in
+// memory.
+type bulk struct {
+	Old   int `json:"old_kind"`
+	NOld  int `json:"old_count"`
+	Bulk  int `json:"bulk_kind"`
+	NBulk int `json:"bulk_count"`
+	NNew  int `json:"new_count"`
+}
+
+func (b bulk) String() string {
+	return fmt.Sprintf("[%d x rec(%s), %d x rec(%s), flush, %d x rec(%s)]", b.NOld, kinds[b.Old].Name, b.NBulk, kinds[b.Bulk].Name, b.NNew, kinds[b.Old].Name)
+}
+
+// runBulk is run without the per-operation layout comparison (quadratic on a
+// log of this length); the layout is compared once at the end.
+func runBulk(tmp string, b bulk) (res runResult, err error) {
+	vtime.SetVirtual(t0)
+	cf := cfg{Mem: uint(b.NOld + b.NBulk + b.NNew + 10), File: true}
+	e, err := newEnv(tmp, cf)
+	if err != nil {
+		return res, err
+	}
+	m := &model{cf: cf, enabled: true}
+	res.e, res.m, res.applicable = e, m, true
+	step := func(o op) error {
+		if o.Kind == "rec" {
+			vtime.AdvanceVirtual(time.Second)
+		}
+		now := vtime.Now()
+		stored, err := e.do(o, m)
+		if err != nil {
+			return fmt.Errorf("%s: %w", o, err)
+		}
+		m.apply(o, now, stored)
+		return nil
+	}
+	for i := 0; i < b.NOld+b.NBulk; i++ {
+		k := b.Bulk
+		if i < b.NOld {
+			k = b.Old
+		}
+		if err = step(op{Kind: "rec", K: k}); err != nil {
+			return res, err
+		}
+	}
+	if err = step(op{Kind: "flush"}); err != nil {
+		return res, err
+	}
+	for i := 0; i < b.NNew; i++ {
+		if err = step(op{Kind: "rec", K: b.Old}); err != nil {
+			return res, err
+		}
+	}
+	lay := e.observe()
+	rt, e1 := lineTimes(lay.rot)
+	ct, e2 := lineTimes(lay.cur)
+	mt, e3 := lineTimes(lay.mem)
+	if e1 != nil || e2 != nil || e3 != nil || !sameTimes(rt, m.rot) || !sameTimes(ct, m.cur) || !sameTimes(mt, m.mem) {
+		res.corrupt = true
+		res.layoutNote = fmt.Sprintf("stored entries differ from the reference: stored %d/%d/%d lines (rotated/current/memory), reference %d/%d/%d", len(rt), len(ct), len(mt), len(m.rot), len(m.cur), len(m.mem))
+	}
+	return res, nil
+}
+
+// phaseLong: the file search stops after a fixed number of scanned records
+// per request unless paging by offset is used; entries older than one such
+// window must still be reachable by both ways of paging.  The window (50 000
+// records in search.go) cannot be crossed by the small layouts of phases A/B.
+func phaseLong(c *lib.Ctx) {
+	bs := []bulk{{Old: 1, NOld: 3, Bulk: 0, NBulk: 50010, NNew: 1}}
+	if !c.Quick() {
+		bs = append(bs, bulk{Old: 2, NOld: 4, Bulk: 11, NBulk: 100020, NNew: 2}, bulk{Old: 0, NOld: 2, Bulk: 2, NBulk: 50000, NNew: 0})
+	}
+	for i, b := range bs {
+		if !c.Mine(3+i*5) || c.Expired() {
+			continue
+		}
+		r, err := runBulk(c.TmpDir, b)
+		if err != nil {
+			c.EngineError(fmt.Sprintf("long log %s: %v", b, err))
+			if r.e != nil {
+				r.e.close()
+			}
+			continue
+		}
+		func() {
+			defer r.e.close()
+			base := vcase{Phase: "C", Layout: "longer-than-one-scan-window", Cfg: r.m.cf, Bulk: &b, HistS: b.String()}
+			rep := func(v *viol) {
+				if v == nil {
+					return
+				}
+				vc := base
+				vc.Check = v.Check
+				d := v.Desc
+				if len(d) > 1500 {
+					d = d[:1500] + " …"
+				}
+				c.Violation(v.Key, fmt.Sprintf("%s\nhistory: %s", d, b), vc)
+			}
+			if r.corrupt {
+				rep(&viol{Key: "layout:long-log", Desc: r.layoutNote, Check: check{Type: "long-layout"}})
+				return
+			}
+			var q int64
+			name := kinds[b.Old].XName
+			before := c.NumViolationKeys()
+			for _, search := range []string{name, `"` + name + `"`} {
+				for _, off := range []string{"0", "1"} {
+					q++
+					v, res := checkQuery(r.e, r.m, request{Limit: "10", Offset: off, Search: search})
+					rep(v)
+					if v == nil && off != "" && len(res.times) > 1 {
+						c.Distinct("nontrivial", "long|"+b.String()+"|"+search+"|"+off)
+					}
+				}
+				rep(checkOffsetPaging(r.e, r.m, 2, search, "", &q))
+				rep(cursorConcat(r.e, r.m, 2, search, &q))
+			}
+			// the unfiltered newest page and a deep offset into the bulk
+			for _, rq := range []request{{Limit: "3"}, {Limit: "3", Offset: "0"}, {Limit: "3", Search: kinds[b.Bulk].XName}, {Limit: "4", Offset: strconv.Itoa(b.NBulk + b.NNew - 2)}, {Limit: "2", Offset: strconv.Itoa(b.NBulk + b.NNew + b.NOld - 1)}} {
+				q++
+				v, _ := checkQuery(r.e, r.m, rq)
+				rep(v)
+			}
+			c.Count("queries", q)
+			c.Count("long_log_layouts", 1)
+			c.Max("long_log_records", int64(b.NOld+b.NBulk+b.NNew))
+			if c.NumViolationKeys() == before {
+				c.Sample(map[string]any{"phase": "C", "history": b.String(), "queries": q})
+			}
+		}()
+	}
+}
+
+// cursorConcat follows the returned cursor over a log longer than one scan
+// window.  A page may then be short (the scan stopped) while the cursor goes
+// on, so only the concatenation of the pages is compared with the reference.
+func cursorConcat(e *env, m *model, limit int, search string, queries *int64) *viol {
+	want := filterRef(m, search, "")
+	ck := check{Type: "cursor-concat", Limit: limit, Req: &request{Search: search}}
+	var got []time.Time
+	cursor := ""
+	maxPages := len(want) + len(m.alive())/1000 + 10
+	for page := 0; ; page++ {
+		rq := request{Limit: strconv.Itoa(limit), OlderThan: cursor, Search: search}
+		*queries++
+		hr := e.call(http.MethodGet, "/control/querylog", rq.rawQuery(), nil)
+		var ar apiResp
+		if hr.Panic != "" || hr.Status != 200 || json.Unmarshal(hr.Body, &ar) != nil {
+			return &viol{Key: "paging:cursor:long-log:request-failed", Desc: fmt.Sprintf("page %d (older_than=%q): HTTP %d panic %q", page+1, cursor, hr.Status, hr.Panic), Check: ck}
+		}
+		if len(ar.Data) > limit {
+			return &viol{Key: "unexpected:more-than-limit", Desc: fmt.Sprintf("page %d has %d entries for limit=%d", page+1, len(ar.Data), limit), Check: ck}
+		}
+		for _, d := range ar.Data {
+			t, err := time.Parse(time.RFC3339Nano, d.Time)
+			if err != nil {
+				return &viol{Key: "body:bad-time", Desc: d.Time, Check: ck}
+			}
+			got = append(got, t)
+		}
+		if ar.Oldest == "" {
+			break
+		}
+		if page > maxPages {
+			return &viol{Key: "paging:cursor:does-not-terminate", Desc: fmt.Sprintf("still a cursor after %d pages", page+1), Check: ck}
+		}
+		cursor = ar.Oldest
+	}
+	if !equalTimes(got, want) {
+		return &viol{Key: "paging:cursor:pages-do-not-partition-the-log", Desc: fmt.Sprintf("pages by cursor over a log of %d records (limit=%d search=%q) concatenate to %s, expected %s", len(m.alive()), limit, search, fmtTimes(got), fmtRef(want)), Check: ck}
+	}
+	return nil
 }
 
 func replay(c *lib.Ctx, raw json.RawMessage) string {
@@ -734,7 +919,13 @@ func replay(c *lib.Ctx, raw json.RawMessage) string {
 	if err := json.Unmarshal(raw, &vc); err != nil {
 		return "bad case: " + err.Error()
 	}
-	r, err := run(c.TmpDir, vc.Cfg, vc.Hist)
+	var r runResult
+	var err error
+	if vc.Bulk != nil {
+		r, err = runBulk(c.TmpDir, *vc.Bulk)
+	} else {
+		r, err = run(c.TmpDir, vc.Cfg, vc.Hist)
+	}
 	if r.e != nil {
 		defer r.e.close()
 	}
@@ -759,6 +950,13 @@ func replay(c *lib.Ctx, raw json.RawMessage) string {
 		vs = append(vs, checkRoundTrip(r.e, "stored", vc.Check.Line))
 	case "quickmatch":
 		vs = append(vs, checkQuickMatch(r.e, rq, vc.Check.Line))
+	case "cursor-concat":
+		vs = append(vs, cursorConcat(r.e, r.m, vc.Check.Limit, rq.Search, &q))
+	case "long-layout":
+		if r.corrupt {
+			return r.layoutNote
+		}
+		return ""
 	default:
 		vs = checkState(c, &r)
 	}
@@ -769,6 +967,9 @@ func replay(c *lib.Ctx, raw json.RawMessage) string {
 		}
 	}
 	if len(out) > 0 {
+		if vc.Bulk != nil {
+			return strings.Join(out, "\n") + "\nhistory: " + vc.Bulk.String()
+		}
 		return strings.Join(out, "\n") + "\nhistory: " + histString(vc.Hist) + " config mem_size=" + strconv.Itoa(int(vc.Cfg.Mem))
 	}
 	return ""
